@@ -25,6 +25,10 @@ spdep = sp.get_variable('spa_dep')
 sp2 = subproject('spb')
 exe = executable('main', 'main.c', gen_c, dependencies: [mdep, spdep, sp2.get_variable('spb_dep')], install: true, c_args: ['-DE2', '-DE1'])
 exe2 = executable('tool', 'tool.c', link_with: b.get_static_lib(), native: false)
+# statements with implicit AND several order-only dependencies: precompiled header / depend_files next to five generated headers
+manyh = custom_target('manyh', output: ['epsilon.h', 'beta.h', 'delta.h', 'alpha.h', 'gamma.h'], command: ['sh', '-c', 'for f in "$@"; do echo > "$f"; done', 'sh', '@OUTPUT@'])
+executable('pchapp', 'pchapp.c', manyh, gen_h, c_pch: 'pch/pchapp_pch.h')
+custom_target('depf', input: 'g.h.in', output: 'depf.txt', command: ['cp', '@INPUT@', '@OUTPUT@'], depend_files: files('data/z.txt', 'data/a.txt', 'man/rich.1'), depends: [manyh, gen_h, gen_c])
 pkg.generate(m, name: 'mlib', description: 'm', requires: [], libraries: [z], extra_cflags: ['-DX_B', '-DX_A'], variables: ['zvar=1', 'avar=2'], subdirs: ['sub2', 'sub1'])
 pkg.generate(b, description: 'b lib', requires: m)
 # several constraints per package (kept in a set internally), public and private
@@ -82,6 +86,8 @@ option('aa_first', type: 'string', value: '')
     'subprojects/spa/spa.c': 'int spa(void) { return 1; }\n', 'subprojects/spa/e.c': 'int main(void){return 0;}\n', 'subprojects/spa/spa.txt': 's',
     'subprojects/spb/meson.build': "project('spb', 'c')\nl = static_library('spb', 'spb.c')\nspb_dep = declare_dependency(link_with: l)\n",
     'subprojects/spb/spb.c': 'int spb(void) { return 1; }\n',
+    'pchapp.c': 'int main(void) { return 0; }\n',
+    'pch/pchapp_pch.h': '#include <stdio.h>\n',
 }
 
 NOLANG = {
